@@ -39,16 +39,19 @@ BUFFERING = {'sort_rows', 'join', 'duplicate', 'set_pk_dedupe'}   # not "row-wis
 def input_resource(draw, name, sizes=(0, 1, 2, 3, 5), types=None):
     nf = draw(st.integers(1, 3))
     names = draw(st.lists(st.sampled_from(FNAMES), min_size=nf, max_size=nf, unique=True))
-    flds = [{'name': 'id', 'type': 'integer'}] + [{'name': n, 'type': draw(st.sampled_from(types or IN_TYPES))} for n in names]
+    # 'id' is unique and non-null, 'g' is a small non-unique non-null group key (duplicate join keys)
+    flds = [{'name': 'id', 'type': 'integer'}, {'name': 'g', 'type': 'integer'}] + \
+        [{'name': n, 'type': draw(st.sampled_from(types or IN_TYPES))} for n in names]
     k = draw(st.sampled_from(list(sizes)))
     if k <= 12:
-        rows = draw(gen.rows_for(flds[1:], k, k, hard=False))
+        rows = draw(gen.rows_for(flds[2:], k, k, hard=False))
     else:
-        proto = draw(gen.rows_for(flds[1:], 3, 3, hard=False))
+        proto = draw(gen.rows_for(flds[2:], 3, 3, hard=False))
         rows = [dict(proto[i % 3]) for i in range(k)]
     for i, r in enumerate(rows):
         r['id'] = i + 1
-    rows = [dict([('id', r['id'])] + [(f['name'], r[f['name']]) for f in flds[1:]]) for r in rows]
+        r['g'] = draw(st.integers(1, 3)) if k <= 12 else (i % 3) + 1
+    rows = [dict([(f['name'], r[f['name']]) for f in flds]) for r in rows]
     return {'name': name, 'fields': flds, 'rows': rows}
 
 
@@ -388,9 +391,11 @@ def _draw_spec(draw, state, kinds, counter):
         op = draw(st.sampled_from(['constant', 'format', 'sum', 'join', 'avg', 'max', 'multiply']))
         spec = {'k': k, 'target': 'cf%d' % n, 'operation': op, 'res': sel}
         ints = _by_type(res, ['integer'])
+        nums = _by_type(res, ['integer', 'number'])
         if op in ('sum', 'avg', 'max', 'multiply'):
             need('id' in ints)
-            spec['source'] = ['id'] + draw(st.lists(st.sampled_from(ints), max_size=1))
+            # 'id' first (non-null integer), then possibly a number field: mixed integer / number sources
+            spec['source'] = ['id'] + draw(st.lists(st.sampled_from(nums), max_size=2, unique=True))
         elif op == 'join':
             spec['source'] = draw(st.lists(st.sampled_from(names), min_size=1, max_size=2, unique=True))
             spec['with'] = '-'
@@ -408,6 +413,12 @@ def _draw_spec(draw, state, kinds, counter):
         sub = draw(st.lists(st.sampled_from(names), min_size=1, max_size=len(names), unique=True))
         return {'k': k, 'fields': sub, 'res': sel}
     if k == 'rename_fields':
+        form = draw(st.sampled_from(['fresh', 'fresh', 'swap', 'chain']))
+        if form != 'fresh' and len(names) >= 2:
+            a, b = draw(st.lists(st.sampled_from(names), min_size=2, max_size=2, unique=True))
+            if form == 'swap':
+                return {'k': k, 'fields': {a: b, b: a}, 'res': sel}
+            return {'k': k, 'fields': {a: b, b: 'rn%d' % n}, 'res': sel}      # a->b, b->fresh (overlapping)
         return {'k': k, 'fields': {draw(st.sampled_from(names)): 'rn%d' % n}, 'res': sel}
     if k == 'find_replace':
         s = _by_type(res, ['string'])
@@ -445,8 +456,10 @@ def _draw_spec(draw, state, kinds, counter):
                         'extra_value': {'name': 'uv%d' % n, 'type': t}, 'res': sel}
         need(False)
     if k == 'concatenate':
+        need(len(state) >= 2)
+        res = draw(st.sampled_from(state[:-1]))
+        rn = res['name']
         i = state.index(res)
-        need(i + 1 < len(state))
         other = state[i + 1]
         common = [f['name'] for f in res['fields']
                   if any(g['name'] == f['name'] and g['type'] == f['type'] for g in other['fields'])]
@@ -459,10 +472,17 @@ def _draw_spec(draw, state, kinds, counter):
         need(len(state) >= 2)
         return {'k': k, 'res': sel}
     if k == 'join':
+        need(len(state) >= 2)
+        res = draw(st.sampled_from(state[:-1]))
+        rn = res['name']
+        names = [f['name'] for f in res['fields']]
+        need(names)
         i = state.index(res)
-        need(i + 1 < len(state))
         tgt = draw(st.sampled_from(state[i + 1:]))
-        need('id' in names and any(f['name'] == 'id' for f in tgt['fields']))
+        key = draw(st.sampled_from(['id', 'g', 'g']))
+        need(key in names and any(f['name'] == key for f in tgt['fields']))
+        # well-typed join: both key fields have the same type
+        need({f['type'] for f in res['fields'] if f['name'] == key} == {f['type'] for f in tgt['fields'] if f['name'] == key})
         fsrc = draw(st.sampled_from(res['fields']))
         aggs = ['first', 'last', 'count', 'array', 'any']
         if fsrc['type'] in ('integer', 'number'):
@@ -471,7 +491,7 @@ def _draw_spec(draw, state, kinds, counter):
             aggs += ['max', 'min', 'set']
         if fsrc['type'] == 'string':
             aggs += ['counters']
-        return {'k': k, 'source': rn, 'source_key': ['id'], 'target': tgt['name'], 'target_key': ['id'],
+        return {'k': k, 'source': rn, 'source_key': [key], 'target': tgt['name'], 'target_key': [key],
                 'fields': {'jf%d' % n: {'name': fsrc['name'], 'aggregate': draw(st.sampled_from(aggs))}},
                 'mode': draw(st.sampled_from(['inner', 'half-outer', 'full-outer'])),
                 'source_delete': draw(st.booleans())}
@@ -492,7 +512,9 @@ def _draw_spec(draw, state, kinds, counter):
         nr = draw(st.integers(0, 3))
         return {'k': k, 'name': 'csv%d' % n, 'header': ['id', 'label', 'amount'],
                 'cells': [[str(j + 1), draw(st.sampled_from(['x', 'y,z', 'é'])), str(draw(st.integers(0, 50)))] for j in range(nr)],
-                'options': draw(st.sampled_from([{}, {'cast_strategy': 'schema'}, {'infer_strategy': 'strings'}]))}
+                # load's default leaves CSV cells as text under inferred numeric types; a well-typed pipeline casts them
+                'options': draw(st.sampled_from([{'cast_strategy': 'schema'}, {'infer_strategy': 'strings'},
+                                                 {'infer_strategy': 'strings', 'cast_strategy': 'strings'}]))}
     if k == 'printer':
         return {'k': k, 'num_rows': draw(st.sampled_from([1, 2, 10]))}
     if k == 'dump_to_path':
